@@ -253,7 +253,12 @@ def run(case):
             fi = [names.index(nm) for nm in free]
             Cn = np.asarray(H.parameter_cov_mat, float)[np.ix_(fi, fi)]
             want = np.sqrt(np.clip(np.einsum("ik,ij,jk->k", J, Cn, J), 0, None))
-            if np.all(np.isfinite(want)) and np.any(np.abs(np.asarray(h, float) - want) > 2e-2 * want + 1e-6 * np.max(want) + 1e-9 * float(np.max(np.abs(rf.d)))):
+            # J C J^T cancels between large correlated terms: the 1e-4-level error of kafe2's numerical parameter derivatives is amplified by the condition number of
+            # the parameter correlation matrix; beyond 1e3 (undetermined parameters, e.g. a peak between two points) the band is not compared
+            dn = np.sqrt(np.clip(np.diag(Cn), 1e-300, None))
+            cc = np.linalg.cond(Cn / np.outer(dn, dn)) if len(fi) > 1 and np.all(np.isfinite(Cn)) else 1.0
+            btol = 2e-2 * max(1.0, cc / 50.0)
+            if np.isfinite(cc) and cc <= 1e3 and np.all(np.isfinite(want)) and np.any(np.abs(np.asarray(h, float) - want) > btol * want + 1e-6 * np.max(want) + 1e-9 * float(np.max(np.abs(rf.d)))):
                 raise Violation("error-band-vs-reported-covariance", f"{where}: error_band = {_s(h)}, sqrt(diag(J C J^T)) with the covariance matrix the fit reports now = {_s(want)}; "
                                 f"fixed {sorted(cfg.spec['fixed'])}")
         try:
